@@ -29,7 +29,7 @@ import (
 func init() {
 	Register(&Monitor{
 		ID: "C14",
-		Rule: "library: a -race build of the harness runs rounds with a barrier start in which N in {2,4,8,16} goroutines execute PRNG-chosen (expression, start node) tasks from a shared pool against one cursor tree, one set of compiled Grammars and shared binding objects (the same ContextApply closure assigning the same maps CLI-style, the same NodeSet variables — fresh per round, reverse-ordered and with spare capacity); each goroutine keeps its results privately and after Wait every result is compared with the serial baseline computed before the round; race reports are read from GORACE log files (exit codes are not trusted), counted and de-duplicated by the xsel frames involved; a report with a frame in xsel code is a violation, one entirely in harness code makes the run inconclusive. " +
+		Rule: "library: a -race build of the harness runs rounds with a barrier start in which N in {2,4,8,16} goroutines execute PRNG-chosen (expression, start node) tasks from a shared pool against two cursor trees, one set of compiled Grammars and shared binding objects (the same ContextApply closure assigning the same maps CLI-style, the same NodeSet variables and a custom function returning one shared slice — fresh per round, reverse-ordered and with spare capacity); each goroutine keeps its results privately and after Wait every result is compared with the serial baseline computed before the round; race reports are read from GORACE log files (exit codes are not trusted), counted and de-duplicated by the xsel frames involved; a report with a frame in xsel code is a violation, one entirely in harness code makes the run inconclusive. " +
 			"CLI: the command built with -race -tags verif runs over generated file sets (unique id per file, empty results, outputs larger than a pipe buffer, malformed and unreadable files, files in a default or prefixed namespace with unqualified descendants next to files in no namespace) with -c 1 and -c N (N in {2,4,16,64}), -a/-m/-n variants and XSEL_VERIF_YIELD seeds; oracle: the -c N stdout cut into per-file blocks by the unique ids is a permutation of the -c 1 blocks, each block contiguous and byte-identical, stderr lines equal as multisets, no race report. distinct_nontrivial = distinct (goroutine count, completion-order hash) interleavings observed plus distinct CLI configurations",
 		Assumptions: []string{"only interleavings that the scheduler (plus injected yields) produced are covered", "the race detector reports only races on accesses that actually executed"},
 		NCases:      func(tier string) int { return 0 },
@@ -44,6 +44,7 @@ func c14Dir() string { return filepath.Join(evid.VerifDir, "work", "C14") }
 type c14Task struct {
 	expr  int
 	start int
+	doc2  bool // start node is taken from the second document of the round
 }
 
 // ChildC14Lib runs in the -race binary. Prints JSON lines.
@@ -74,6 +75,11 @@ func ChildC14Lib(seed uint64, rounds int) int {
 			xast.Path{Head: va, HPred: []xast.Expr{xast.N(1)}}, xast.Path{Head: vb, Steps: []xast.Step{xast.S("ancestor-or-self", xast.NodeT())}},
 			xast.Fn("count", xast.Binary{Op: "|", L: va, R: vb}), xast.Fn("string", va), xast.Binary{Op: "=", L: va, R: vb},
 			xast.Abs(xast.DS(), xast.S("child", xast.AnyT(), xast.Fn("last"))), xast.Fn("sum", xast.Abs(xast.DS(), xast.S("child", xast.Test{Kind: xast.TText}))),
+			// a custom function handing out the shared, reverse-ordered slice itself
+			xast.Path{Head: xast.Call{Prefix: "p", Local: "nodes"}, HPred: []xast.Expr{xast.N(1)}}, xast.Path{Head: xast.Call{Prefix: "p", Local: "nodes"}, HPred: []xast.Expr{xast.Fn("last")}},
+			xast.Path{Head: xast.Paren{X: xast.Call{Prefix: "p", Local: "nodes"}}, HPred: []xast.Expr{xast.N(2)}, Steps: []xast.Step{xast.S("parent", xast.NodeT())}},
+			xast.Fn("count", xast.Path{Head: xast.Call{Prefix: "p", Local: "nodes"}, Steps: []xast.Step{xast.Step{Axis: "attribute", Test: xast.AnyT(), Abbrev: true}}}),
+			xast.Binary{Op: "|", L: xast.Call{Prefix: "p", Local: "nodes"}, R: vb},
 		} {
 			srcs = append(srcs, xast.String(e))
 		}
@@ -107,26 +113,47 @@ func ChildC14Lib(seed uint64, rounds int) int {
 		}
 		sharedNS := map[string]string{"p": canonNS["p"], "q": canonNS["q"], "r": canonNS["r"]}
 		sharedVars := map[xsel.XmlName]xsel.Result{{Local: "a"}: setA, {Local: "b"}: setB}
+		setF := mk(some)
+		sharedFns := map[xsel.XmlName]xsel.Function{{Space: canonNS["p"], Local: "nodes"}: func(ctx xsel.Context, args ...xsel.Result) (xsel.Result, error) {
+			return setF, nil
+		}}
 		apply := func(c *xsel.ContextSettings) {
 			c.NamespaceDecls = sharedNS
 			c.Variables = sharedVars
+			c.FunctionLibrary = sharedFns
 		}
+		// a second, unrelated tree queried by the same goroutines at the same time
+		d2 := adoc.Generate(g, o)
+		m2, err2 := bridge.FromStore(d2)
 		var tasks []c14Task
 		for i := range grammars {
-			tasks = append(tasks, c14Task{i, 0})
+			tasks = append(tasks, c14Task{i, 0, false})
 			for k := 0; k < 2; k++ {
-				tasks = append(tasks, c14Task{i, g.Intn(len(m.Order))})
+				tasks = append(tasks, c14Task{i, g.Intn(len(m.Order)), false})
 			}
+			if err2 == nil && i < 8 {
+				tasks = append(tasks, c14Task{i, 0, true}, c14Task{i, g.Intn(len(m2.Order)), true})
+			}
+		}
+		startNode := func(t c14Task) xsel.Cursor {
+			if t.doc2 {
+				return m2.Order[t.start]
+			}
+			return m.Order[t.start]
 		}
 		// serial baseline on private copies of the variables (so the baseline itself cannot disturb the shared ones)
 		baseVars := map[xsel.XmlName]xsel.Result{{Local: "a"}: append(xsel.NodeSet{}, setA...), {Local: "b"}: append(xsel.NodeSet{}, setB...)}
+		baseF := append(xsel.NodeSet{}, setF...)
 		baseApply := func(c *xsel.ContextSettings) {
 			c.NamespaceDecls = map[string]string{"p": canonNS["p"], "q": canonNS["q"], "r": canonNS["r"]}
 			c.Variables = baseVars
+			c.FunctionLibrary = map[xsel.XmlName]xsel.Function{{Space: canonNS["p"], Local: "nodes"}: func(ctx xsel.Context, args ...xsel.Result) (xsel.Result, error) {
+				return append(xsel.NodeSet{}, baseF...), nil
+			}}
 		}
 		baseline := make([]string, len(tasks))
 		for i, t := range tasks {
-			res, err := Exec(m.Order[t.start], grammars[t.expr], baseApply)
+			res, err := Exec(startNode(t), grammars[t.expr], baseApply)
 			baseline[i] = resultKey(res, err)
 		}
 		N := []int{2, 4, 8, 16}[round%4]
@@ -150,7 +177,7 @@ func ChildC14Lib(seed uint64, rounds int) int {
 				<-start
 				for _, ti := range order {
 					t := tasks[ti]
-					res, err := Exec(m.Order[t.start], grammars[t.expr], apply)
+					res, err := Exec(startNode(t), grammars[t.expr], apply)
 					mine = append(mine, resultKey(res, err))
 				}
 				results[w] = mine
